@@ -27,6 +27,16 @@ CLAIMS = {
         "Decides the repository's own callback-safety rule structurally: no user code under a live pool guard (re-entry), none uncontained under a MutexGuard (poisoning), no persistent writes on both sides of a may-unwind user point, restore-before-destroy in Slab::remove, closures of the thread-safe entry points confined to catch_unwind with the guard released before resume_unwind. The 25 sites violating R1-R3 on the pinned tree are genuine reproduced defects listed as known findings; any other site is a VIOLATION. That the pool still works after every fault sequence is not decided.",
         "Trusted: rustc nightly drop elaboration and unwind edges, factgen extraction, the user-code classification (U1-U5) and its two named benign sites in vf/props/c04.py.",
         "DESIGN.md section 3, C04"),
+    "C05": (
+        "typestate table over MIR: dominating-switch value guards on results of atomic operations for every access to the two MaybeUninit cells, transition table of atomic operations with evaluated constants, path-sensitive acquire dataflow (compare_exchange outcomes split), trait matrix for endpoint types",
+        "Decides structural necessary conditions only: which function may touch which cell under which observed state, publish order, terminal-state-before-wake, waker cleanup on every failed registration arm, exhaustive switches, the protocol's transition table, acquire-before-payload-read, endpoint Send/!Sync/!Clone. The outcome / exactly-once / wake-up guarantees over all interleavings and weak-memory executions are NOT decided (they need a memory-model-aware exploration).",
+        "Trusted: rustc nightly MIR and constant evaluation, factgen extraction, the protocol tables (TRANSITIONS, SWITCH_TABLE, cell access table) in vf/props/c05.py which restate packages/events_once/src/core/state.rs.",
+        "DESIGN.md section 3, C05"),
+    "C06": (
+        "path-sensitive ordering dataflow on MIR (last-read acquire state / last-write release state, compare_exchange success/failure split at the branch on its result, helper summaries, fences), sibling cross-check of the two sender transitions, who-may-call + guard on release_event, reachability of deallocation primitives per storage strategy",
+        "Decides structural necessary conditions only: Acquire on every path that grants release of the storage, Release on every hand-over, no event access after hand-over, release_event discipline, one deallocation primitive per storage strategy. One violation on the pinned tree (missing acquire fence in sender_dropped_without_set's DISCONNECTED arm) was a genuine defect and is repaired by a fix: commit. Leak freedom at quiescence and the full happens-before relation over all schedules are not decided.",
+        "Trusted: rustc nightly MIR, factgen extraction of orderings as evaluated constants, the return-shape table (SPEC) in vf/props/c06.py; C11 release/acquire semantics as the reason the rule is necessary.",
+        "DESIGN.md section 3, C06"),
     "C18": (
         "MIR rules: exactly-once forwarding on every path, argument/return identity by backward slice, who-may-call on the counters, dominance of register-before-publish",
         "Decides structural necessary conditions only: each GlobalAlloc method forwards exactly once with unchanged arguments and returns the inner result; (size,1) is recorded exactly once for alloc/alloc_zeroed/realloc and never for dealloc; counters are thread-local and registered before publication; spans subtract their start snapshot. It does not decide exactness over all allocation histories/interleavings.",
